@@ -52,6 +52,15 @@ def expected(acc, plain, kind_for_catch=None):
             "errtype": ("value", '"%s"' % k), "abandon": ("error", (k, m)), "end": ("value", "[nil, %s]" % w)}[acc]
 
 
+# an Either kept in a variable is a value: extending it twice gives two independent results and leaves it as it was
+REUSE = [
+    ("e := 10.try\na := e.+(1)\nb := e.+(12)\n[a.val, b.val, e.val, e.A]", "[11, 22, 10, [10, nil]]"),
+    ("e := 10.try.{|x| x * 2}\na := e.{|x| x + 1}\nb := e.{|x| x / 0}\n[a.val, b.err.type._name, e.val, a.val]", '[21, "ZeroDivisionErr", 20, 21]'),
+    ("e := 1.try./(0)\na := e.+(1)\nb := e.or(5)\n[a.err.type._name, b, e.err.type._name, e.val]", '["ZeroDivisionErr", 5, "ZeroDivisionErr", nil]'),
+    ("e := nil.try\n[e.val, e.err, e.err?, e.val?, e.A]", "[nil, nil, false, false, [nil, nil]]"),
+]
+
+
 def gen(chk):
     chains = []  # (family, steps text)
     rng = chk.rng
@@ -73,6 +82,9 @@ def gen(chk):
     for st in ('.{|x| x.try.+(1)}', '.{|x| Either.newVal(x)}', '.+(1).{|x| x.try}', '.{|x| x.try./(0)}', '.{|x| [x.try]}.{|a| a[0].val}',
                '.{|x| [x.try.+(1)]}.{|a| a[0].A}'):
         chains.append(("eithervalue", st))
+    # a step that succeeds with nil: still a success (err? false, err nil)
+    for st in ('.{|x| nil}', '.+(1).{|x| nil}', '.{|x| nil}.{|y| y.nil?}'):
+        chains.append(("nilvalue", st))
     # keyword arguments of a property-call step must reach the callee
     for start, st in (('"a,b,c"', '.split(sep: ",")'), ('"a b"', '.split(sep: " ").{|a| a.len}'), ('"ff"', '.I(base: 16)'),
                       ('"101"', '.I(base: 2).+(1)'), ('"abcdefgh"', '.truncate(5, end: "~")')):
@@ -111,6 +123,8 @@ def main(chk):
         for K in (KINDS[ci % len(KINDS)], KINDS[(ci + 3) % len(KINDS)]):
             cases.append((fam, steps, "catch:" + K, "(%s).try%s.catch(%s) {|e| 7}.A\n" % (st, steps, K)))
             cases.append((fam, steps, "ignore:" + K, "(%s).try%s.ignore(%s).A\n" % (st, steps, K)))
+    for prog, want in REUSE:
+        cases.append(("reuse", prog, "reuse:" + want, prog + "\n"))
     progs = [c[3] for c in cases]
     res = pancore.run_programs(chk, progs, cmp_msg=True, prelude=PRELUDE)
     viol, model_only, hist = [], [], {}
@@ -123,6 +137,15 @@ def main(chk):
         if acc is None:
             plain = imp
             if r["verdict"] == "disagree":
+                model_only.append(r)
+            continue
+        if acc.startswith("reuse:"):
+            want = acc[6:]
+            if not (imp["kind"] == "value" and imp.get("repr") == want):
+                viol.append(("an Either kept in a variable and used twice: `%s` gives %s, expected %s" % (
+                    prog.strip().replace("\n", "; "), imp.get("repr") or (imp.get("errk"), imp.get("errmsg")), want),
+                    {"program": prog, "expected": want, "impl": {k: imp.get(k) for k in ("kind", "repr", "errk", "errmsg")}}, "C13:reuse"))
+            elif r["verdict"] == "disagree":
                 model_only.append(r)
             continue
         if plain["kind"] not in ("value", "error"):
@@ -155,7 +178,8 @@ def main(chk):
     chk.cov["rule"] = ("chains of 1..4 steps over ints from {operator calls, built-in and native property calls, literal calls, variable "
                        "calls} with a failure of each of 8 error kinds injected at each position of a 3-step chain, all 2-step non-failing "
                        "chains, seeded random chains; each chain is run unwrapped and, wrapped with try, followed by each of A, val, err, or, "
-                       "val?, err?, err.msg, err.type, abandon, end, catch/ignore with a matching and a non-matching type. Oracle: the accessor "
+                       "val?, err?, err.msg, err.type, abandon, end, catch/ignore with a matching and a non-matching type; steps that succeed with nil; an Either "
+                       "kept in a variable and extended twice (hand-derived answers). Oracle: the accessor "
                        "must report the unwrapped outcome (value, or same error kind and message) and print exactly the unwrapped chain's "
                        "markers (steps after a failure are not called). Non-callable and absent properties through the proxy are the "
                        "recorded finding.")
